@@ -21,6 +21,9 @@ Record case := {
   c_meta : option meta;             (* metadata sent explicitly; None = omitted by the client *)
   c_groups : option sent; c_lines : option sent; c_trie : option sent; c_tree : option sent;
   c_job : option upload_job;        (* the job handed to remote / direct *)
+  c_job_ns : option (N * N);        (* StartTime, EndTime of that job in nanoseconds since the epoch *)
+  c_remote_slots : list (N * option tnode);   (* after the remote upload: (start second of a 10 s slot, storage.Get over that slot) *)
+  c_direct_slots : list (N * option tnode);   (* same after the direct upload *)
   c_series : option (bytes * list (bytes * bytes));   (* the series of the remote job, structured: application name, tags *)
   c_remote : option (query * bytes * stored);   (* query and content type the server received, result *)
   c_direct : option stored;
@@ -89,6 +92,25 @@ Definition render_series (app : bytes) (tags : list (bytes * bytes)) : bytes :=
   | _ => (app ++ 123 :: render_tags tags ++ [125])%list
   end.
 
+(* the window a profile is stored under: segment.normalize on the times the storage receives.
+   [unit] = 1 for whole seconds (what /ingest gets: t.Unix() of the job's times), 10^9 for the nanosecond
+   times a direct upload hands over.  Result in the same unit. *)
+Definition norm_window (unit s e : N) : N * N :=
+  let slot := 10 * unit in
+  let s' := s - s mod slot in
+  let e2 := e - e mod slot in
+  if N.eqb (e mod slot) 0 && negb (N.eqb s' e2) then (s', e) else (s', e2 + slot).
+
+(* every observed slot inside the window holds the profile (exactly, when the window is one slot), every other is empty *)
+Definition slots_ok (want : tnode) (w : N * N) (unit : N) (obs : list (N * option tnode)) : bool :=
+  forallb (fun o => let t := fst o * unit in
+                    if N.leb (fst w) t && N.ltb t (snd w)
+                    then match snd o with
+                         | Some tr => negb (N.eqb (snd w - fst w) (10 * unit)) || t_eqb tr want
+                         | None => false
+                         end
+                    else match snd o with None => true | Some _ => false end) obs.
+
 Definition job_meta (j : upload_job) : meta := (j_spy j, j_rate j, j_units j, j_aggregation j).
 
 Definition query_agrees (model got : query) : bool :=
@@ -109,6 +131,11 @@ Definition check_case (c : case) : verdict :=
                 | Some (app, tags) => beqb (q_get (ascii "name") q) (render_series app tags) && beqb (j_name j) (render_series app tags)
                 | None => true
                 end) "remote upload: the server received another series name than the job's application name and tags";
+          spec (match c_job_ns c with
+                | Some (sn, en) => slots_ok want (norm_window 1 (sn / 1000000000) (en / 1000000000)) 1 (c_remote_slots c)
+                                   && N.eqb (j_start j) (sn / 1000000000)
+                | None => true
+                end) "remote upload: the profile is not stored under exactly the 10 s slots of the job's [start, end) in whole seconds";
           spec (tree_is want s) "remote upload: the stored profile is not the multiset that was sampled";
           spec (meta_eqb (job_meta j) s) "remote upload: metadata of the job not stored";
           corr (query_agrees (upload_query j) q && beqb ct upload_content_type) "upload_query model differs from the request the server received";
@@ -119,7 +146,11 @@ Definition check_case (c : case) : verdict :=
     end ++
     match c_job c, c_direct c with
     | Some j, Some s =>
-        [ spec (tree_is want s) "direct upload: the stored profile is not the multiset that was sampled";
+        [ spec (match c_job_ns c with
+                | Some (sn, en) => slots_ok want (norm_window 1000000000 sn en) 1000000000 (c_direct_slots c)
+                | None => true
+                end) "direct upload: the profile is not stored under exactly the 10 s slots of the job's [start, end)";
+          spec (tree_is want s) "direct upload: the stored profile is not the multiset that was sampled";
           spec (meta_eqb (job_meta j) s) "direct upload: metadata of the job not stored" ]
     | _, _ => []
     end ++
